@@ -31,6 +31,8 @@ func c01Menu(w *mintops.W) []string {
 		}
 		if np == 2 {
 			ops = append(ops, fmt.Sprintf("melt|%d|0,0|S", j), fmt.Sprintf("melt|%d|0,1|P", j), fmt.Sprintf("melt|%d|0,1|S", j))
+			// the same secret twice in one melt, the copies differing in the witness field
+			ops = append(ops, fmt.Sprintf("melt|%d|0,0w|S", j), fmt.Sprintf("melt|%d|0,0w|P", j))
 		}
 		if m.Known == "none" {
 			ops = append(ops, fmt.Sprintf("pollm|%d|S", j), fmt.Sprintf("pollm|%d|F", j), fmt.Sprintf("pollm|%d|P", j))
